@@ -133,6 +133,11 @@ static void sec_magnetic(Ctx& c, uint64_t idx) {
   mm.delta_epoch = r.coin(0.7) ? r.pick(dts) : r.uniform(0.1, 20);
   mm.write_delta_epoch = NM > 1 || r.coin();
   if (!mm.write_delta_epoch) mm.delta_epoch = 1;       // documented default
+  // a single-model file may carry a non-positive DeltaEpoch: the reader replaces it by 1 (irrelevant for the field: one epoch + rate);
+  // and the signature line may carry text after the version (both paths shown as never executed by the reach monitor)
+  double file_dt = mm.delta_epoch;
+  if (NM == 1 && r.coin(0.3)) { mm.write_delta_epoch = true; file_dt = r.coin() ? 0.0 : -r.uniform(0.1, 10); mm.delta_epoch = 1; }
+  if (r.coin(0.15)) mm.signature_suffix = r.coin() ? " synthetic" : "\ttrailing text 123";
   mm.min_time = mm.epoch; mm.max_time = mm.epoch + NM * mm.delta_epoch + 5; mm.min_height = -1e3; mm.max_height = 8.5e5;
   mm.id = "SYNW" + std::to_string(1000 + idx % 9000);
   int style = r.coin(0.6) ? CS_DECAY : (int)r.pick(std::vector<int>{CS_FLAT, CS_SINGLE, CS_ALT});
@@ -157,7 +162,8 @@ static void sec_magnetic(Ctx& c, uint64_t idx) {
                      (tmode >= 1 && tmode <= 3 ? "/truncated" : "");
   J mw = J().i("N", N).i("NumModels", NM).i("NumConstants", NC).i("norm", normsel).f("radius", mm.radius).f("epoch", mm.epoch).f("delta_epoch", mm.delta_epoch)
              .i("Nmax", Nmax).i("Mmax", Mmax).f("earth_a", ea).f("earth_f", ef).str("coef_style", coefstyle_name[style]);
-  if (!ref::write_wmm(scratch().path, name, mm, sets)) { c.herr("cannot write synthetic magnetic model under " + scratch().path); return; }
+  { ref::WmmMeta mf = mm; mf.delta_epoch = file_dt; if (!ref::write_wmm(scratch().path, name, mf, sets)) { c.herr("cannot write synthetic magnetic model under " + scratch().path); return; } }
+  if (false) { c.herr("cannot write synthetic magnetic model under " + scratch().path); return; }
   // documented error: Mmax > Nmax
   if (r.coin(0.05)) {
     bool threw = false;
